@@ -8,8 +8,8 @@ for f in sorted(glob.glob(os.path.join(HERE, "seeded", "*", "meta.json"))):
     first = next((l.strip("# ").strip() for l in note if l.strip()), "")
     cf = m.get("confirmed", {})
     ok = cf.get("pinned_suite_still_254_passes") and cf.get("demo_exit_with_change") not in (0, None) and cf.get("demo_exit_on_repo") == 0
-    rows.append(f"| {m['id']} | {m['breaks_property']} | {first[:110]} | {'yes' if ok else 'NO'} | {', '.join(m.get('caught_by') or []) or '**missed**'} | {m.get('strengthening', '')} |")
+    rows.append(f"| {m['id']} | {m['breaks_property']} | {first[:110]} | {'yes' if ok else 'NO'} | {', '.join(m.get('caught_by') or []) or '**missed**'} | {m.get('first_result', 'caught')} | {m.get('strengthening', '')} |")
 open(os.path.join(HERE, "seeded", "INDEX.md"), "w").write(
     "# Seeded third-party breakages\n\nEach directory holds patch.diff (git apply on /repo), demo.py (exits 0 on /repo, non-zero with the patch), notes.md (author's notes) and meta.json (what was run, results).\n"
-    "`python tools_seeded.py seeded/<id> --props Cxx[,Cyy]` re-evaluates one.\n\n| id | property | change | confirmed (suite unchanged, demo fails with / passes without) | quick checks that fire | strengthening that was needed |\n|---|---|---|---|---|---|\n" + "\n".join(rows) + "\n")
+    "`python tools_seeded.py seeded/<id> --props Cxx[,Cyy]` re-evaluates one.\n\n| id | property | change | confirmed (suite unchanged, demo fails with / passes without) | quick checks that fire (now) | first result | strengthening that was needed |\n|---|---|---|---|---|---|---|\n" + "\n".join(rows) + "\n")
 print(len(rows), "seeded changes indexed")
